@@ -1,5 +1,5 @@
 """C13 — every request gets exactly one answer carrying its own transaction id (structural clauses)."""
-from ..ir import callee, short, walk, ctor_name, pat_variants, strip_not, AnchorMissing
+from ..ir import callee, short, walk, ctor_name, pat_variants, strip_not, guards, AnchorMissing
 from ..trace import Tracer, ok_exits, err_exits, count, base, peel
 from ..prov import Bindings
 from .common import *
@@ -597,6 +597,24 @@ def rule_i(prog, rep):
             else:
                 rep.ok('C13.i', f'{short(fname)}:{sv}', f'{f.file}:{arm.get("ln")}', 'answers exactly once on every path')
     rep.floor('C13.i', n, 40, 'arms with an answer channel (regular + follower)')
+    # every received request is handed to the dispatcher of its mode, unconditionally
+    sites = (('leader_follower::follower::try_process_api_call', 'leader_follower::follower::process_api_call'),
+             ('leader_follower::leader::try_forward_api_call', 'process_api_call'))
+    for fn_name, target in sites:
+        g = crate.fn(fn_name)
+        gb = Bindings(crate, g)
+        calls = [(nd, a) for nd, a in crate.walk_fn(g) if nd.get('k') == 'call' and callee(nd) == target and
+                 any(x.startswith('param(') and '#Some.0' in x for x in gb.origins(nd['args'][1]))]
+        good = False
+        for nd, anc in calls:
+            ifs = [it for it in guards(anc + (nd,)) if it[0] == 'if']
+            if not ifs:
+                good = True
+        if good:
+            rep.ok('C13.i', f'{short(fn_name)}:dispatch', g.loc, f'a received request is passed to {short(target)} unconditionally')
+        else:
+            rep.violation('C13.i', f'{short(fn_name)}:dispatch', g.loc, f'a received request does not reach {target} on every path: it is never answered',
+                          key=f'C13.i/{fn_name}/dispatch')
 
 
 RULES = [('C13.i', rule_i), ('C13.h', rule_h), ('C13.a', rule_a), ('C13.b', rule_b), ('C13.c', rule_c), ('C13.d', rule_d), ('C13.e', rule_e), ('C13.f', rule_f),
